@@ -148,7 +148,10 @@ def fill_device(dev, d):
     for off, hx in (d.get('data') or {}).items():
         b = bytes.fromhex(hx)
         off = int(off)
-        dev.memory_array[off:off + len(b)] = b
+        if flat(dev) is None:
+            dev.write(off, len(b), b)         # (a device that keeps its bytes otherwise than in one bytearray: through its own interface)
+        else:
+            dev.memory_array[off:off + len(b)] = b
     if 'fill' in d:
         dev.memory_array[:] = bytes.fromhex(d['fill']) * (size // max(1, len(d['fill']) // 2))
 
@@ -184,12 +187,21 @@ def device_at(arm, begin):
     raise KeyError(begin)
 
 
+def flat(dev):
+    """the device's backing bytearray, or None when it keeps its bytes some other way"""
+    a = getattr(dev, 'memory_array', None)
+    return a if isinstance(a, (bytearray, bytes)) else None
+
+
 def poke(arm, addr, data):
     """write bytes at a physical address straight into the backing device (no MPU, no log)"""
     for mc in arm.mem.memories:
         if mc.beginning <= addr < mc.end and hasattr(mc.mem, 'memory_array'):
             off = addr - mc.beginning
-            mc.mem.memory_array[off:off + len(data)] = data
+            if flat(mc.mem) is None:
+                mc.mem.write(off, len(data), bytes(data))
+            else:
+                mc.mem.memory_array[off:off + len(data)] = data
             return True
     return False
 
@@ -198,6 +210,8 @@ def peek(arm, addr, n):
     for mc in arm.mem.memories:
         if mc.beginning <= addr < mc.end and hasattr(mc.mem, 'memory_array'):
             off = addr - mc.beginning
+            if flat(mc.mem) is None:
+                return bytes(mc.mem.read(off, n))
             return bytes(mc.mem.memory_array[off:off + n])
     return bytes(n)
 
@@ -309,7 +323,7 @@ def full_state(arm, hidden=True):
     d['wfi'] = bool(arm.is_wait_for_interrupt)
     for i, mc in enumerate(arm.mem.memories):
         m = mc.mem
-        if hasattr(m, 'memory_array'):
+        if flat(m) is not None:
             d['mem.%d' % i] = hashlib.blake2b(bytes(m.memory_array), digest_size=8).hexdigest()
             d['memlen.%d' % i] = len(m.memory_array)
     if hidden:
@@ -431,7 +445,7 @@ def dump_devices(arm, template):
         if d.get('in_config'):
             nd['in_config'] = True
         m = mc.mem
-        if hasattr(m, 'memory_array'):
+        if flat(m) is not None:
             data = {}
             arr = bytes(m.memory_array)
             for off in range(0, len(arr), 32):
